@@ -1452,7 +1452,13 @@ static void ares_detach_query(ares_query_t *query)
 {
   /* Remove the query from all the lists in which it is linked */
   ares_query_remove_from_conn(query);
-  ares_htable_szvp_remove(query->channel->queries_by_qid, query->qid);
+  /* This may run twice for a query (before its callback and when it is
+   * freed).  In between, a request started by the callback may have been given
+   * the same, by then unused, id: only remove the index entry if it is ours. */
+  if (ares_htable_szvp_get_direct(query->channel->queries_by_qid,
+                                  query->qid) == query) {
+    ares_htable_szvp_remove(query->channel->queries_by_qid, query->qid);
+  }
   ares_llist_node_destroy(query->node_all_queries);
   query->node_all_queries = NULL;
 }
